@@ -25,7 +25,12 @@ package tcplistener
 //@ fieldspec multiLineReader.readInput(p []byte) (n int, err error)
 //@   modifies p[:]
 //@   ensures 0 <= result.0 && result.0 <= len(p)
+// The tester is only ever shown text that ends at a line boundary - just before a newline - or, when a flush or an overflow
+// forces a decision, at the end of the buffered data (ghost mlrend; -1 where that is not allowed): its verdict never depends
+// on how much of the following text happens to have arrived already.
+//@ ghost var mlrend int
 //@ fieldspec multiLineReader.testRecordStart(s []byte) bool
+//@   requires[tested-text-ends-at-a-line-boundary] ref(s) == ref(cbuf) && off(s) >= off(cbuf) && (off(s) + len(s) == off(cbuf) + mlrend || (off(s) + len(s) < off(cbuf) + len(cbuf) && at(cbuf, off(s) + len(s)) == 10))
 //@   modifies nothing
 //@ fieldspec multiLineReader.consumeRecord(s []byte)
 //@   requires[record-is-a-slice-of-the-buffer] ref(s) == ref(cbuf) && off(s) >= off(cbuf) && off(s) + len(s) <= off(cbuf) + len(cbuf)
@@ -37,7 +42,7 @@ package tcplistener
 // rest, moved to the front: no byte is lost, duplicated or reordered (the one newline after each record aside)
 //@ func (mlr *multiLineReader) processBuffer(bufferEnd int)
 //@   requires mlrshape(mlr) && mlrlines(mlr) && mlr.offsetAppend < bufferEnd && bufferEnd <= len(mlr.buffer)
-//@   define   cbuf === mlr.buffer && mlrnext == 0 && mlrgap == 0
+//@   define   cbuf === mlr.buffer && mlrnext == 0 && mlrgap == 0 && mlrend == -1
 //@   modifies mlr.offsetAppend, mlr.offsetSearch, mlr.buffer[:], mlrnext, mlrgap
 //@   ensures[shape-kept] mlrshape(mlr) && len(mlr.buffer) - mlr.offsetAppend >= mlr.softRecordLimit
 //@   ensures[lines-kept] mlrlines(mlr)
@@ -49,7 +54,7 @@ package tcplistener
 
 //@ func (mlr *multiLineReader) checkOverflow()
 //@   requires mlrshape(mlr) && mlrlines(mlr)
-//@   define   cbuf === mlr.buffer
+//@   define   cbuf === mlr.buffer && mlrend == mlr.offsetAppend
 //@   modifies mlr.offsetAppend, mlr.offsetSearch, mlrnext, mlrgap
 //@   ensures[shape-kept] mlrshape(mlr) && len(mlr.buffer) - mlr.offsetAppend >= mlr.softRecordLimit
 //@   ensures[lines-kept] mlrlines(mlr)
@@ -58,21 +63,21 @@ package tcplistener
 
 //@ func (mlr *multiLineReader) Read() error
 //@   requires mlrok(mlr)
-//@   define   cbuf === mlr.buffer && mlrnext == 0 && mlrgap == 0
+//@   define   cbuf === mlr.buffer && mlrnext == 0 && mlrgap == 0 && mlrend == -1
 //@   modifies mlr.offsetAppend, mlr.offsetSearch, mlr.buffer[:], mlrnext, mlrgap
 //@   ensures[shape-kept] mlrshape(mlr) && len(mlr.buffer) - mlr.offsetAppend >= mlr.softRecordLimit
 //@   ensures[lines-kept] mlrlines(mlr)
 
 //@ func (mlr *multiLineReader) Flush()
 //@   requires mlrok(mlr)
-//@   define   cbuf === mlr.buffer && mlrnext == 0 && mlrgap == 0
+//@   define   cbuf === mlr.buffer && mlrnext == 0 && mlrgap == 0 && mlrend == -1
 //@   modifies mlr.offsetAppend, mlr.offsetSearch, mlr.buffer[:], mlrnext, mlrgap
 //@   ensures[shape-kept] mlrshape(mlr) && len(mlr.buffer) - mlr.offsetAppend >= mlr.softRecordLimit
 //@   ensures[lines-kept] mlrlines(mlr)
-//@   ensures[partial-last-line-kept] forall k int :: 0 <= k && k < mlr.offsetAppend ==> mlr.buffer[k] == old(mlr.buffer[mlr.offsetAppend - now(mlr.offsetAppend) + k])
+//@   ensures[partial-last-line-kept] mlr.offsetAppend == old(mlr.offsetAppend) - old(mlr.offsetSearch) && forall k int :: 0 <= k && k < mlr.offsetAppend ==> mlr.buffer[k] == old(mlr.buffer[mlr.offsetAppend - now(mlr.offsetAppend) + k])
 
 //@ func (mlr *multiLineReader) FlushAll()
 //@   requires mlrok(mlr)
-//@   define   cbuf === mlr.buffer && mlrnext == 0 && mlrgap == 0
+//@   define   cbuf === mlr.buffer && mlrnext == 0 && mlrgap == 0 && mlrend == mlr.offsetAppend
 //@   modifies mlr.offsetAppend, mlr.offsetSearch, mlrnext, mlrgap
 //@   ensures[invariant-kept] mlrok(mlr) && mlr.offsetAppend == 0
